@@ -137,16 +137,26 @@ Goal True. idtac "ASSUMPTIONS zero_epochs_do_nothing". Abort.
 Print Assumptions zero_epochs_do_nothing.
 
 (* ---- history ----------------------------------------------------------------------------------------------- *)
+(* Domain of the history / metric model: with an evaluator every batch must have at least two samples, because
+   Evaluator.step raises on a batch of one (squeeze() drops the batch axis; see [eval_step_defined] and the
+   correspondence "evaluator/step on a batch of one raises").  The hypothesis is carried explicitly although the
+   proofs about the (total) model functions do not need it: outside it the model does not describe the code. *)
+Definition batches_defined (E : option evaluator) (d : run_data) (n : nat) (v : option nat) (epochs : nat) : Prop :=
+  E <> None -> forall e i, (e < epochs)%nat ->
+    ((i < n)%nat -> eval_step_defined (tbatch d e i) = true) /\
+    (forall nv, v = Some nv -> (i < nv)%nat -> eval_step_defined (vbatch d e i) = true).
+
 (* [names] = metric names the epoch_callback returns (the same at every call: [cb_names]); the keys are
    loss, [accuracy], names, and with a validation loader val_loss, [val_accuracy], val_<name>; they must be
    pairwise distinct (a callback metric called "loss" would be appended to the loss list).  Then the returned
    dictionary has exactly these keys in this order, each with one entry per epoch. *)
 Theorem history_one_entry_per_epoch :
   forall E d n v names epochs, cb_names E names -> NoDup (all_keys E v names) -> (1 <= epochs)%nat ->
+    batches_defined E d n v epochs ->
     map fst (fit_history E d n v epochs) = all_keys E v names /\
     forall k, In k (all_keys E v names) ->
       exists l, lookup k (fit_history E d n v epochs) = Some l /\ llen l = epochs.
-Proof. intros E d n v names epochs Hcb Hnd. exact (history_shape E d n v names Hcb Hnd epochs). Qed.
+Proof. intros E d n v names epochs Hcb Hnd He _. exact (history_shape E d n v names Hcb Hnd epochs He). Qed.
 Goal True. idtac "ASSUMPTIONS history_one_entry_per_epoch". Abort.
 Print Assumptions history_one_entry_per_epoch.
 
@@ -176,6 +186,7 @@ Print Assumptions epoch_val_loss_is_mean.
 (* the e-th accuracy entry is computed from the decoded predictions / labels of all batches of epoch e *)
 Theorem epoch_accuracy_entries :
   forall Ev d n v names l e x, cb_names (Some Ev) names -> NoDup (all_keys (Some Ev) v names) -> acc_on Ev = true ->
+    batches_defined (Some Ev) d n v (llen l) ->
     (lookup "accuracy"%string (fit_history (Some Ev) d n v (llen l)) = Some l -> nth_error l e = Some x ->
      x = accuracy (List.concat (map (batch_true (emode_of Ev)) (map (tbatch d e) (seq 0 n))))
                   (List.concat (map (batch_pred (emode_of Ev)) (map (tbatch d e) (seq 0 n))))) /\
@@ -184,7 +195,7 @@ Theorem epoch_accuracy_entries :
      x = accuracy (List.concat (map (batch_true (emode_of Ev)) (map (vbatch d e) (seq 0 nv))))
                   (List.concat (map (batch_pred (emode_of Ev)) (map (vbatch d e) (seq 0 nv))))).
 Proof.
-  intros Ev d n v names l e x Hcb Hnd Hacc. split.
+  intros Ev d n v names l e x Hcb Hnd Hacc _. split.
   - intros Hl Hx. exact (history_accuracy (Some Ev) d n v names Hcb Hnd Ev l e x eq_refl Hacc Hl Hx).
   - intros nv Hv Hl Hx. exact (history_val_accuracy (Some Ev) d n v names Hcb Hnd Ev nv l e x eq_refl Hacc Hv Hl Hx).
 Qed.
@@ -237,13 +248,14 @@ Example history_example :
   let b2 := {| outs := [[1; 1]; [0; 1]]; labz := [0%Z; 1%Z]; labrows := [] |} in
   let d := {| tloss := fun e i => inject_Z (Z.of_nat (e + i)); vloss := fun e i => 1;
               tbatch := fun e i => if Nat.eqb i 0 then b1 else b2; vbatch := fun e i => b1 |} in
-  cb_names (Some Ev) [] /\ NoDup (all_keys (Some Ev) (Some 1%nat) []) /\
+  cb_names (Some Ev) [] /\ NoDup (all_keys (Some Ev) (Some 1%nat) []) /\ batches_defined (Some Ev) d 2 (Some 1%nat) 2 /\
   forallb (fun kv => forallb (fun p => Qeq_bool (fst p) (snd p)) (combine (snd (fst kv)) (snd kv)))
           (combine (fit_history (Some Ev) d 2 (Some 1%nat) 2)
                    [[1 # 2; 3 # 2]; [3 # 4; 3 # 4]; [1; 1]; [1 # 2; 1 # 2]]) = true /\
   map fst (fit_history (Some Ev) d 2 (Some 1%nat) 2) = ["loss"; "accuracy"; "val_loss"; "val_accuracy"]%string.
 Proof.
-  cbn zeta. split; [reflexivity|]. split.
+  cbn zeta. split; [reflexivity|]. split; [|split].
   - cbn. repeat constructor; cbn; intuition discriminate.
+  - intros _ e i _. split; [intros _|intros nv _ _]; cbn; destruct (Nat.eqb i 0); reflexivity.
   - split; vm_compute; reflexivity.
 Qed.
